@@ -57,8 +57,10 @@ func init() {
 
 // number of tips of a shared-taxa case: now and then more than 64 (and more than 128), so that the bitsets of the
 // branches span several machine words
-func pickTips(r *rand.Rand, maxT int) int {
-	switch r.Intn(48) {
+func pickTips(r *rand.Rand, maxT int) int { return pickTipsIn(r, maxT, 48) }
+
+func pickTipsIn(r *rand.Rand, maxT int, oneIn int) int {
+	switch r.Intn(oneIn) {
 	case 0:
 		return 65 + r.Intn(12)
 	case 1:
@@ -187,7 +189,7 @@ func caseC14(r *rand.Rand, cw *CalcWriter, label string, maxT int) {
 
 // a pair of unrooted trees on the same taxa, related in one of several ways
 func pairC08(r *rand.Rand, gp *GenParams, maxT int) (a, b *STree, rel string) {
-	nt := pickTips(r, maxT)
+	nt := pickTipsIn(r, maxT, 160) // a case is a dozen events on the same pair: large pairs are rarer here
 	names := tipNamesN("t", nt)
 	a = genSTreeOn(r, gp, names, false, 0, 0)
 	switch r.Intn(7) {
